@@ -58,6 +58,7 @@ def check(tier, seed):
     with C.WorkDir('C18') as wd:
         C.audit_sources()
         C.props_obligations(res, 'C18', wd)
+        C.tie_b_kernels(res, wd, ('ck', 'ubx', 'nmea'))
         rng = C.rng_for(seed, 'C18')
         cases = []
         ties = 0
